@@ -176,6 +176,7 @@ pub fn run(ctx: &mut Ctx) {
     ctx.meta("bounds", &format!("Σ* length <= {}; documents <= {} elements (+ spines), all single mutations", n, doc_nodes));
     ctx.meta("assumptions", "64 KiB tag-size limit on the mutation corpus (mutated size fields otherwise allocate gigabytes legitimately)");
     ctx.expect_nonzero("mid_document_starts");
+    ctx.expect_nonzero("buffer_boundary_docs");
     let cfg = Cfg::strict();
     let mut mcfg = Cfg::strict();
     mcfg.max_size = MaxSize::Limit(1 << 16);
@@ -184,6 +185,19 @@ pub fn run(ctx: &mut Ctx) {
         run_one(ctx, &rs, s, &cfg, "sigma");
         !ctx.should_stop()
     });
+    for (i, doc) in docs::buffer_boundary_docs(ctx.tier.pick(24, 64)).into_iter().enumerate() {
+        if ctx.mine(i as u64) {
+            let (bytes, _) = ref_encode(&doc);
+            ctx.count("buffer_boundary_docs", 1);
+            run_one(ctx, &rs, &bytes, &cfg, "buffer-boundary-doc");
+            // and cut inside / right after the long headers
+            for cut in [bytes.len() - 1, bytes.len() - 9, 65536, 65537, 65540, 65550] {
+                if cut < bytes.len() {
+                    run_one(ctx, &rs, &bytes[..cut], &cfg, "buffer-boundary-doc-truncated");
+                }
+            }
+        }
+    }
     let p = DocParams { max_nodes: doc_nodes, globals: vec![ID_TAG, ID_VOID], exclude: vec![], unknown_subsets: true, devs: 1, payload_classes: false, big_payloads: false, noncanonical: false, width_devs: true, extras: true, all_widths: false };
     let kinds = [MutKind::Replace, MutKind::Delete, MutKind::Truncate, MutKind::Suffix];
     docs::for_each_doc(ctx, &rs, &p, &mut |ctx, doc| {
